@@ -32,8 +32,24 @@ ASSUMPTIONS = [
 ]
 
 
+def gen_long_seq(rng):
+    """Several hundred to a few thousand bases with A-rich and A-free regions: the best tail may begin far behind a long
+    stretch that, taken alone, ends every shorter candidate."""
+    parts = ["".join(rng.choice("ACGT") for _ in range(rng.randint(0, 12)))]
+    for _ in range(rng.randint(1, 4)):
+        parts.append("A" * rng.choice([rng.randint(3, 60), rng.randint(100, 900)]))
+        if rng.random() < 0.3:
+            parts.append(rng.choice("CGT"))
+        parts.append("".join(rng.choice(["C", "G", "T", "CTG", "CCGT"]) for _ in range(rng.choice([0, rng.randint(1, 20), rng.randint(30, 70)]))))
+    if rng.random() < 0.6:
+        parts.append("A" * rng.randint(0, 40))
+    return "".join(parts)
+
+
 def gen_seq(rng):
     mode = rng.random()
+    if mode < 0.015:
+        return gen_long_seq(rng)
     n = rng.choice([0, 1, 2, 3, 4, 5, rng.randint(0, 50)])
     if mode < 0.45:
         head = "".join(rng.choice("ACGT") for _ in range(rng.randint(0, 12)))
